@@ -48,6 +48,13 @@ type ListV struct {
 	Poss  []token.Pos
 }
 
+// PtrV: a pointer to an immutable value (an element of a list of pointers handed to a fold as input).
+type PtrV struct {
+	Elem Val
+}
+
+func (v *PtrV) vstr() string { return "&" + v.Elem.vstr() }
+
 // FuncV: a function value named in a table (a package-level function or a method expression T.m; the latter takes the
 // receiver as its first argument, as the method's SSA function does).
 type FuncV struct {
@@ -55,7 +62,12 @@ type FuncV struct {
 	Fn *ssa.Function
 }
 
-func (v *FuncV) vstr() string { return "func:" + v.F.FullName() }
+func (v *FuncV) vstr() string {
+	if v.F == nil {
+		return "func:" + v.Fn.String()
+	}
+	return "func:" + v.F.FullName()
+}
 
 func (v *CVal) vstr() string {
 	if v.c != nil {
